@@ -6,6 +6,7 @@
 import CorgiModel
 import CorgiModel.Step
 import CorgiSpec.Oracle
+import CorgiSpec.ShapeCheck
 
 open Corgi
 
@@ -226,7 +227,11 @@ def handleLine (cd : Codec S) (useOracle : Bool) (l : Loop S) (line : String) : 
           | .panic _ => { l with dead := true }
           | .skip n => { l with σ := σ', o := o', skip := n }
           | _ => { l with σ := σ', o := o' }
-        (l', [renderOut cd out ++ (match spec with | some s => " ## " ++ renderOut cd s | none => "")])
+        -- before every pass: is the state inside the hypothesis of the path-sum theorem (`ShapeOK`)?
+        let ann := match c with
+          | .backward _ _ | .backwardc _ _ | .bwd _ _ => " @@ shape=" ++ shapeClass l.σ
+          | _ => ""
+        (l', [renderOut cd out ++ (match spec with | some s => " ## " ++ renderOut cd s | none => "") ++ ann])
 
 partial def loop (cd : Codec S) (useOracle : Bool) (h : IO.FS.Stream) (out : IO.FS.Stream) (l : Loop S) : IO Unit := do
   let line ← h.getLine
